@@ -143,7 +143,8 @@ qlisttbl_t *qconfig_parse_file(qlisttbl_t *tbl, const char *filepath,
                     *tmpp != '\n' && *tmpp != '\0'; tmpp++)
                 ;
             int len = tmpp - (strp + CONST_STRLEN(_INCLUDE_DIRECTIVE));
-            if (len >= sizeof(buf)) {
+            // the whole directive is copied into buf for the replacement below
+            if (CONST_STRLEN(_INCLUDE_DIRECTIVE) + len >= sizeof(buf)) {
                 DEBUG("Can't process %s directive.", _INCLUDE_DIRECTIVE);
                 free(str);
                 return NULL;
